@@ -14,6 +14,7 @@ KEYS = {  # key in the subject -> label
     "commits only up to the last entry": "S15",
     "acts only under the term it was elected in": "S16",
     "made a follower while waiting": "S14",
+    "adopts that term": "S17",
     "verif: observation hooks": "HOOKS",
 }
 log = subprocess.check_output(["git", "-C", "/repo", "log", "--format=%h %s", "-n", "30"], text=True).splitlines()
